@@ -20,13 +20,13 @@ var ErrWatchdog = errors.New("verif: watchdog fired (inconclusive)")
 // Loops runs real background loops of one Manager as goroutines and lets a driver advance them
 // one event at a time.
 type Loops struct {
-	N      *Node
-	ctx    context.Context
-	cancel context.CancelFunc
-	wg     sync.WaitGroup
-	ErrCh  chan error
-	mu     sync.Mutex
-	exited map[string]bool
+	N       *Node
+	ctx     context.Context
+	cancel  context.CancelFunc
+	wg      sync.WaitGroup
+	ErrCh   chan error
+	mu      sync.Mutex
+	exited  map[string]bool
 	syncErr error
 }
 
